@@ -31,12 +31,13 @@ import (
 	"github.com/dolthub/dolt/go/zzverif/vsql"
 )
 
-const c35Rule = "one server per test; per case a file remote (file:// URL under the scratch dir), an author database `a` (table t, 3-5 rows, optionally 200 bulk rows, pushed as main) and two databases `b`, `c` made by dolt_clone; then 8-14 drawn operations by a drawn actor: commit (a fresh row or a new table) on main/b1/b2, tag, dolt_push [--force] of a branch, push of a tag, deletion of a remote branch (push origin :b), dolt_fetch, dolt_pull (fast-forward, up-to-date or merge of disjoint rows), race (two actors pull the same branch, both commit, both push without --force in a drawn order), a fresh dolt_clone into a new database, dolt_backup add+sync (optionally over a dirty working set) followed by dolt_backup restore. Model: remote branch/tag -> hash, updated only by operations that must succeed; a non-force push must succeed iff the remote branch is absent, equal to, or an ancestor (by dolt_log at the pusher) of the pushed head, otherwise it must fail and leave every remote ref as it was. Oracle after every transfer: the remote's datasets (opened in process from its directory, no cache) equal the model; destination refs (remote-tracking refs after fetch/pull/clone, the local branch after pull: == remote head on fast-forward, a commit with both heads as ancestors on merge) have the predicted hashes; every ref of the destination database renders (hash, dolt_log, tables, schemas, rows AS OF) exactly like the record taken where that commit was created; closure walk (types.WalkAddrsFromNomsValue from every dataset head) over the destination chunk store (remote directory, clone, backup directory) finds every address; a backup's root hash equals the source's and the restored database's vsql.Fingerprint equals the source's; of two racing pushes exactly the first succeeds. Non-trivial (DESIGN): at least two successful data-carrying transfers into a destination that already held part of the data, at least two distinct branches or tags transferred, and at least one rejected push, forced push, merge pull or remote branch deletion; distinct by operation list."
+const c35Rule = "one server per test; per case a file remote (file:// URL under the scratch dir), an author database `a` (table t, 3-5 rows, optionally 200 bulk rows, pushed as main) and two databases `b`, `c` made by dolt_clone; then 10-16 drawn operations by a drawn actor: commit (a fresh row or a new table) on main/b1/b2, tag, dolt_push [--force] of a branch, push of a tag, deletion of a remote branch (push origin :b), dolt_fetch, dolt_pull (fast-forward, up-to-date or merge of disjoint rows), race (two actors pull the same branch, both commit, both push without --force in a drawn order), a fresh dolt_clone into a new database, dolt_backup add+sync (optionally over a dirty working set) followed by dolt_backup restore. Model: remote branch/tag -> hash, updated only by operations that must succeed; a non-force push must succeed iff the remote branch is absent, equal to, or an ancestor (by dolt_log at the pusher) of the pushed head, otherwise it must fail and leave every remote ref as it was. Oracle after every transfer: the remote's datasets (opened in process from its directory, no cache) equal the model; destination refs (remote-tracking refs after fetch/pull/clone, the local branch after pull: == remote head on fast-forward, a commit with both heads as ancestors on merge) have the predicted hashes; every ref of the destination database renders (hash, dolt_log, tables, schemas, rows AS OF) exactly like the record taken where that commit was created; closure walk (types.WalkAddrsFromNomsValue from every dataset head) over the destination chunk store (remote directory, clone, backup directory) finds every address; a backup's root hash equals the source's and the restored database's vsql.Fingerprint equals the source's; of two racing pushes exactly the first succeeds. Non-trivial (DESIGN): at least two successful data-carrying transfers into a destination that already held part of the data, at least two distinct branches or tags transferred, and at least one rejected push, forced push, merge pull or remote branch deletion; distinct by operation list."
 
 var c35Assumptions = []string{
 	"file remotes only (the HTTP remote backend and real multi-process pushers are not covered by this part)",
 	"actors insert rows with primary keys from a per-case counter and create tables with unique names, so merges made by dolt_pull never conflict; working sets are clean whenever a pull runs",
 	"dolt_fetch is not required to prune remote-tracking refs of branches deleted on the remote, nor to bring tags whose commits are not reachable from a fetched branch",
+	"a remote branch is deleted (push origin :b) only by an actor that has the remote-tracking ref of b (it fetches first otherwise): without it dolt deletes the remote branch and then reports 'branch not found' for the tracking ref",
 	"identical commit hashes are taken to mean identical history (content addressing); what is compared per ref is the SQL rendering of hash, log, schemas and rows",
 }
 
@@ -516,7 +517,7 @@ func TestVerif_C35(t *testing.T) {
 	defer admin.Close()
 	admin.MustExec(t, "CREATE DATABASE home")
 	admin.MustExec(t, "USE home")
-	vh.Check(t, "sql", 40, 40, func(rt *rapid.T) {
+	vh.Check(t, "sql", 45, 40, func(rt *rapid.T) {
 		c35Run(rt, srv, admin, dir, rec)
 	})
 }
@@ -566,10 +567,10 @@ func c35Run(rt *rapid.T, srv *vsql.Server, admin *vsql.Session, scratch string, 
 	branches := []string{"main", "main", "b1", "b2"}
 	backups := 0
 	extraClones := 0
-	nOps := rapid.IntRange(8, 14).Draw(rt, "ops")
+	nOps := rapid.IntRange(10, 16).Draw(rt, "ops")
 	for i := 0; i < nOps; i++ {
 		lbl := fmt.Sprintf("op%d", i)
-		kind := rapid.SampledFrom([]string{"commit", "commit", "commit", "push", "push", "push", "pull", "pull", "fetch", "race", "race", "tag", "pushtag", "delete_remote_branch", "clone", "backup", "newtable"}).Draw(rt, lbl)
+		kind := rapid.SampledFrom([]string{"commit", "commit", "commit", "push", "push", "push", "push", "pull", "pull", "fetch", "race", "tag", "pushtag", "pushtag", "delete_remote_branch", "clone", "backup", "newtable"}).Draw(rt, lbl)
 		act := c.actors[rapid.IntRange(0, 2).Draw(rt, lbl+"_actor")]
 		br := rapid.SampledFrom(branches).Draw(rt, lbl+"_branch")
 		switch kind {
@@ -577,9 +578,15 @@ func c35Run(rt *rapid.T, srv *vsql.Server, admin *vsql.Session, scratch string, 
 			c.commitOn(act, br, kind == "newtable")
 			c.ops = append(c.ops, fmt.Sprintf("%s:%s %s", act.name, kind, br))
 		case "push":
-			force := rapid.IntRange(0, 3).Draw(rt, lbl+"_force") == 0
 			if c.refHash(act.se, "branch", br) == "" {
 				c.commitOn(act, br, false)
+			}
+			// a push that would be rejected is forced half of the time, others rarely
+			force := false
+			if rh, on := c.rBranch[br]; on && !c.isAncestorMaybe(act.se, rh, c.refHash(act.se, "branch", br)) {
+				force = rapid.Bool().Draw(rt, lbl+"_force_diverged")
+			} else {
+				force = rapid.IntRange(0, 5).Draw(rt, lbl+"_force") == 0
 			}
 			ok := c.push(act, br, force)
 			c.ops = append(c.ops, fmt.Sprintf("%s:push %s force=%v ok=%v", act.name, br, force, ok))
@@ -671,6 +678,11 @@ func c35Run(rt *rapid.T, srv *vsql.Server, admin *vsql.Session, scratch string, 
 			}
 			if _, ok := c.rBranch[br]; !ok {
 				continue
+			}
+			if c.refHash(act.se, "remote", "remotes/origin/"+br) == "" {
+				// dolt deletes the remote branch and then fails on the missing remote-tracking ref when
+				// the deleting clone has never seen the branch; the generator lets it fetch first
+				c.fetch(act)
 			}
 			c.x(act.se, "CALL dolt_push('origin', ':"+br+"')")
 			delete(c.rBranch, br)
